@@ -93,7 +93,7 @@ fn check_best_fit<T: Sc>(out: &mut CaseOut, stream: &str, case: u64, spec: &Prob
     let mut worst: f64 = 0.0;
     for s in 0..bf.c {
         for i in 0..bf.r {
-            let tol = TAU_RESID * T::EPS * (phi.c as f64) * absw.at(i, s) + f64::MIN_POSITIVE;
+            let tol = TAU_RESID * T::EPS * (phi.c as f64) * absw.at(i, s) + 64.0 * tiny_for(T::EPS);
             worst = worst.max((bf.at(i, s) - want.at(i, s)).abs() / tol);
         }
     }
@@ -292,8 +292,8 @@ pub fn run(ctx: &Ctx) {
     ctx.assume("oracle Phi from the zoo's closed formulas evaluated in the scalar type under test; tolerance 16·eps·M·(|y_w|+|Phi_w||C|) per element");
     let t = ctx.tier;
     let maxlen = t.pick(10, 50);
-    let b = t.pick(15.0, 150.0);
-    ctx.run_cases("histories", t.pick(6000, 30000), b, |r, c, o| if c % 3 == 0 { history_case::<f32>(r, c, o, maxlen) } else { history_case::<f64>(r, c, o, maxlen) });
-    ctx.run_cases("fit-exchanges", t.pick(2500, 15000), b, |r, c, o| if c % 4 == 0 { fit_case::<f32>(r, c, o) } else { fit_case::<f64>(r, c, o) });
-    ctx.run_cases("rank-deficient", t.pick(2500, 12000), b, |r, c, o| if c % 3 == 0 { rankdef_case::<f32>(r, c, o) } else { rankdef_case::<f64>(r, c, o) });
+    let b = t.pick(30.0, 900.0);
+    ctx.run_cases("histories", t.pick(6000, 150000), b, |r, c, o| if c % 3 == 0 { history_case::<f32>(r, c, o, maxlen) } else { history_case::<f64>(r, c, o, maxlen) });
+    ctx.run_cases("fit-exchanges", t.pick(2500, 75000), b, |r, c, o| if c % 4 == 0 { fit_case::<f32>(r, c, o) } else { fit_case::<f64>(r, c, o) });
+    ctx.run_cases("rank-deficient", t.pick(2500, 60000), b, |r, c, o| if c % 3 == 0 { rankdef_case::<f32>(r, c, o) } else { rankdef_case::<f64>(r, c, o) });
 }
